@@ -12,8 +12,9 @@ PROPERTY = "C04"
 LEVEL = "exploration"
 SHARDS = 16
 RULE = ("n=1: every component tuple of the parameter lattice x EVERY non-empty subset of free parameters (63) x pixel "
-        "sets x (errs, B) variants; n=2: component pairs x EVERY pair of subsets (64^2-1); n=3,4: structured subsets "
-        "4^n; non-trivial = at least one free parameter; distinct = distinct (components, free mask, pixel set, "
+        "sets x (errs, B) variants; n=2: component pairs (all fields different, and pairs SHARING theta / theta+shape / all but "
+        "the centre) x EVERY pair of subsets (64^2-1); n=3,4: structured subsets 4^n, also with one shape and theta for all "
+        "components; non-trivial = at least one free parameter; distinct = distinct (components, free mask, pixel set, "
         "weights)")
 ASSUMPTIONS = ["reference derivatives by complex step (h=1e-30) on an independent model with theta in degrees",
                "error clause evaluated only when the reference Fisher matrix has condition number < 1e10",
